@@ -153,6 +153,31 @@ let handle (line : string) : string =
     (match r with
      | [i; b] -> opt str_link (resolved_at l (nat_of_string i) (bool_of_string01 b))
      | _ -> failwith "resat")
+  | "resseq" :: r ->
+    (* k successive resolved_at(i, b); after the input and after every step: the data, the number of unresolved
+       crossings and crossing_at(j) for j = 0..cn (LinkAt.crossing_at; the last one is out of range) *)
+    let (l, r) = parse_link r in
+    let state l =
+      let cn = int_of_nat (crossing_num l) in
+      str_link l ^ "|cn=" ^ ios cn ^ "|lib=" ^ ios cn ^ "|at=" ^
+      String.concat "/" (Stdlib.List.init (cn + 1) (fun j -> opt str_cross (crossing_at l (nat_of_int j)))) in
+    (match r with
+     | _k :: steps ->
+       let rec go l steps acc =
+         match steps with
+         | [] -> Stdlib.List.rev acc
+         | i :: b :: rest ->
+           let (i, b) = (nat_of_string i, bool_of_string01 b) in
+           let a = resolved_at l i b in
+           (* the other call form (clone, crossing_at_mut(i).resolve(b)); equal by C18_resolved_at_forms *)
+           if a <> resolve_via_index l i b then go l rest ("MODEL-FORMS-DIFFER" :: acc)
+           else (match a with
+                 | Some l' -> go l' rest (state l' :: acc)
+                 | None -> go l rest ("P" :: acc))
+         | _ -> failwith "resseq steps"
+       in
+       String.concat " " (go l steps [state l])
+     | [] -> failwith "resseq")
   | "mirror" :: r -> let (l, _) = parse_link r in str_link (mirror l)
   | "inv" :: kind :: r ->
     let (l1, r) = parse_link r in
